@@ -806,3 +806,6 @@ RECIPES['C12'] += [
 RECIPES['C04'] += [
     ('omega-over-p-roll-wraps', 'dinosaur/primitive_equations.py', "    padding = [(1, 0), (0, 0), (0, 0)]\n    g_part = (alpha * f + jnp.pad(alpha * f, padding)[:-1, ...]) / del_𝜎", "    g_part = (alpha * f + jnp.roll(alpha * f, 1, axis=0)) / del_𝜎", 'kill'),
 ]
+RECIPES['C06'] += [
+    ('imex-needed-later-off-by-one', TI, "      if any(a_ex[j][i] for j in range(i, num_steps - 1)) or b_ex[i]:\n        f[i] = F(Y)", "      if any(a_ex[j][i] for j in range(i + 1, num_steps - 1)) or b_ex[i]:\n        f[i] = F(Y)\n      else:\n        f[i] = 0 * y0", 'kill'),
+]
